@@ -20,7 +20,8 @@ cell ratio (op `ratio` [num, den] -> `term_image.set_cell_ratio(num / den)`, tex
 size (op `cell` [w, h] -> the `get_cell_size` stub, graphics styles) - and the size SETTING may
 change KIND during the iterator's life: `size` [w, _] = `set_size(width=w)` (fixed), `dsize` name =
 `image.size = Size[name]` (dynamic); `size0` = the setting the image is constructed with
-(["F", w] / ["D", name]; default: `dyn` -> Size.FIT, else width 4).  `settings` reports the size
+(["F", w] / ["D", name]; default: `dyn` -> Size.FIT, else width 4); `px` = pixel size of the
+source frames (default 8 x 4).  `settings` reports the size
 setting in force after every operation (["F", w, h] / ["D", member index]).
 
 Everything reported is an integer, a bool, a short string or a list of those."""
@@ -52,25 +53,26 @@ REAL_CLOSE = Image.Image.close
 _BYTES = {}
 
 
-def frames_of(n):
+def frames_of(n, px=(8, 4)):
     frames = []
+    w, h = px
     for i in range(n):
-        im = Image.new("RGB", (8, 4), (40 * i + 10, 255 - 50 * i, 17 * i))
-        for x in range(8):
-            im.putpixel((x, i % 4), (255, 255, 255))
+        im = Image.new("RGB", (w, h), (40 * i + 10, 255 - 50 * i, 17 * i))
+        for x in range(w):
+            im.putpixel((x, i % h), (255, 255, 255))
         frames.append(im)
     return frames
 
 
-def source_bytes(n, fmt):
+def source_bytes(n, fmt, px=(8, 4)):
     """-> (path of the file in the temp dir, its content)"""
-    key = (n, fmt)
+    key = (n, fmt, tuple(px))
     if key not in _BYTES:
-        frames = frames_of(n)
+        frames = frames_of(n, tuple(px))
         kw = dict(save_all=True, append_images=frames[1:], duration=20, loop=0)
         if fmt == "WEBP":
             kw["lossless"] = True
-        path = os.path.join(TMP, f"anim{n}.{fmt.lower()}")
+        path = os.path.join(TMP, f"anim{n}_{px[0]}x{px[1]}.{fmt.lower()}")
         frames[0].save(path, format=fmt, **kw)
         with open(path, "rb") as f:
             _BYTES[key] = (path, f.read())
@@ -98,7 +100,7 @@ def construct(case):
     """-> (image, the caller's PIL image or None)"""
     cls = STYLES[case["style"]]
     kind, fmt = case.get("source", "pil"), case.get("fmt", "GIF")
-    path, content = source_bytes(case["frames"], fmt)
+    path, content = source_bytes(case["frames"], fmt, case.get("px", (8, 4)))
     kw = {} if case.get("dyn") else {"width": 4}
     if case.get("size0"):
         kw = {"width": case["size0"][1]} if case["size0"][0] == "F" else {}
